@@ -57,6 +57,11 @@ fn do_call(cas: &Cas<K>, stats: &Option<Arc<OrphanStats<K>>>, t: &[String]) -> S
             "remove" => match cas.remove(&parse_chunk(&t[1])) { Ok(b) => format!("ok:{b}"), Err(x) => e(x) },
             "remove_range" => match cas.remove_range((bound(&t[1]), bound(&t[2]))) { Ok(n) => format!("ok:{n}"), Err(x) => e(x) },
             "get" => match cas.get(&parse_chunk(&t[1])) { Ok(Some(b)) => format!("bytes:{}", show_content(&b)), Ok(None) => "none".into(), Err(x) => e(x) },
+            // the other two entry points through the same lookup-then-open path
+            "reader" => match cas.get_reader(&parse_chunk(&t[1])) {
+                Ok(Some(mut r)) => { let mut b = vec![]; match std::io::Read::read_to_end(&mut r, &mut b) { Ok(_) => format!("bytes:{}", show_content(&b)), Err(x) => format!("err:io.{:?}", x.kind()) } }
+                Ok(None) => "none".into(), Err(x) => e(x) },
+            "range" => match cas.get_range(&parse_chunk(&t[1]), 0, u64::MAX) { Ok(Some(b)) => format!("bytes:{}", show_content(&b)), Ok(None) => "none".into(), Err(x) => e(x) },
             "size" => match cas.get_size(&parse_chunk(&t[1])) { Ok(Some(n)) => format!("size:{n}"), Ok(None) => "none".into(), Err(x) => e(x) },
             "checkpoint" => match cas.checkpoint() { Ok(()) => "ok".into(), Err(x) => e(x) },
             "delorphans" => match stats.as_ref().map(|s| s.delete_orphans()) {
